@@ -10,7 +10,7 @@ use crate::c08::representatives;
 use crate::campaign::{Campaign, Outcome, Tier};
 use crate::eval::{erase_call, erase_expr, Evaluator, Stop};
 use crate::gen::{Gen, GenCfg};
-use crate::host::{Answer, HasHost, Host, HostScript};
+use crate::host::{compact_in_resolve, Answer, HasHost, Host, HostScript};
 use crate::rng::{Fnv, Rng};
 use crate::simdata::{BasicW, Knobs, SimData, SimpleW};
 use crate::val::Val;
@@ -119,6 +119,10 @@ fn run_real<D: SimData>(sc: &ScEval, out: &mut Outcome) -> Option<Real> {
     out.count("f2_callback_fail_fired", d.host().fired_fail as u64);
     out.count("f3_callback_decline_fired", d.host().fired_decline as u64);
     out.count("f4_callback_churn_fired", d.host().fired_churn as u64);
+    out.count("f8_compactions_inside_a_callback", d.host().fired_compact_in_callback as u64);
+    if d.host().fired_compact_in_callback > 0 {
+        out.probe("compaction-inside-a-callback");
+    }
     Some(Real { status, result, log: d.host().log.iter().map(erase_call).collect(), steps })
 }
 
@@ -571,7 +575,12 @@ impl Campaign for C17 {
             }
         }
         let host_jumps = if rng.chance(1, 3) { rng.range(1, 16) } else { 0 };
-        ScEval { host_jumps, working_copy: !basic && rng.chance(1, 4), basic, src, input, script, max_steps: 3000 }
+        let working_copy = !basic && rng.chance(1, 4);
+        // (last draw) the host compacts the store inside its *resolve* callback, then answers
+        if basic && rng.chance(1, 8) {
+            compact_in_resolve(&mut script);
+        }
+        ScEval { host_jumps, working_copy, basic, src, input, script, max_steps: 3000 }
     }
 
     fn execute(&self, sc: &ScEval) -> Outcome {
